@@ -772,6 +772,11 @@ def main():
             dict(name="E1 pyvc", path="vf/pyvc", serves_properties=sorted(k for k, v in CLAIMED.items() if "E1" in v[5]),
                  kind_free_text="AST of the real function -> per-path verification conditions with sidecar contracts and "
                                 "loop invariants, discharged by z3 (cvc5 for unknowns); counter-models replayed on the real code"),
+            dict(name="E3 frame", path="vf/frame", serves_properties=sorted(k for k, v in CLAIMED.items() if "E3" in v[5]),
+                 kind_free_text="flow-sensitive may-alias analysis of the real function ASTs: one frame obligation per write site "
+                                "(the written object must not be, or be reachable from, a protected object: a parameter, or the "
+                                "result of a memoised call); callee effects from summaries computed from the callees' bodies; "
+                                "unresolvable callees assumed pure and counted; violations replayed natively"),
         ],
         checks=checks,
         notes="Contract-based deductive verification; see DESIGN.md. Exit codes: 0 held, 1 violation, 2 undecided, 3 checker fault.",
